@@ -31,29 +31,30 @@ theorem allPlain_mergeBlocks (blocks : List Block) : ∀ (os : LObjects), AllPla
       · exact h q hq
       · simp at hq; exact ⟨p.2, by rw [hq]⟩
 
-theorem loadDocWith_of_parts_blocks (file version : Bytes) (xs : Nat)
-    (x0 : XTable) (size0 : Nat) (tr0 : Dict) (os : LObjects) (blocks : List Block)
+/-- the skeleton of `Reader::read`: header, `startxref`, the newest cross-reference section, the
+`Prev` walk (result `x`, `tr`), the loading pass over `x` (result `os`, `blocks`) -/
+theorem loadDoc_skeleton (file version : Bytes) (xs : Nat)
+    (x0 : XTable) (size0 : Nat) (tr0 : Dict) (x : XTable) (tr : Dict) (os : LObjects) (blocks : List Block)
     (h0 : findFrom PDF_KW (file.length + 1) file 0 = some 0)
     (h1 : pHeader file = some version)
     (h2 : getXrefStart file = some xs) (h2' : xs ≤ file.length)
     (h3 : xrefAndTrailer (file.drop xs) = .ok (x0, size0, tr0))
-    (h4 : tr0.get PREV = none) (h5 : x0.maxId + 1 < U32) (h6 : tr0.has ENCRYPT = false)
-    (h7 : x0.sorted.foldl (loadStep file x0 x0.sorted.length) (.ok ([], [])) = .ok (os, blocks))
+    (h4 : prevLoop file (file.length + 2) (tr0.get PREV) [] x0 (tr0.remove PREV) = .ok (x, tr))
+    (h5 : x.maxId + 1 < U32) (h6 : tr.has ENCRYPT = false)
+    (h7 : x.sorted.foldl (loadStep file x x.sorted.length) (.ok ([], [])) = .ok (os, blocks))
     (h9 : AllPlain os) :
     ∃ mark, loadDoc file =
-      .ok (Loaded.mk version mark tr0 (asObjects ((mergeBlocksX x0 os blocks).map fun p => (p.1, unplain p.2)))
-        x0.maxId xs) := by
-  have hprev : prevLoop file (file.length + 2) none [] x0 tr0 = .ok (x0, tr0) := by
-    simp [prevLoop]
+      .ok (Loaded.mk version mark tr (asObjects ((mergeBlocksX x os blocks).map fun p => (p.1, unplain p.2)))
+        x.maxId xs) := by
   have hx : ¬ (xs > file.length) := by omega
-  have hm : ¬ (x0.maxId + 1 ≥ U32) := by omega
-  have hpl : AllPlain (mergeBlocksX x0 os blocks) := allPlain_mergeBlocks _ os h9
+  have hm : ¬ (x.maxId + 1 ≥ U32) := by omega
+  have hpl : AllPlain (mergeBlocksX x os blocks) := allPlain_mergeBlocks _ os h9
   refine ⟨markOf file, ?_⟩
   unfold loadDoc loadDocOrd loadDocOrd2 loadDocWith
-  simp only [h0, List.drop_zero, h1, h2, hx, if_false, h3, h4, remove_absent tr0 PREV h4, hprev, hm, h6,
+  simp only [h0, List.drop_zero, h1, h2, hx, if_false, h3, h4, hm, h6,
     Bool.false_eq_true, h7, id, Nat.add_sub_cancel, pendingIds_allPlain _ hpl, List.foldl_nil]
-  have hmap : ∀ (F : ObjId × LObj → ObjId × Obj), (∀ p ∈ mergeBlocksX x0 os blocks, F p = (p.1, unplain p.2)) →
-      (mergeBlocksX x0 os blocks).map F = (mergeBlocksX x0 os blocks).map fun p => (p.1, unplain p.2) :=
+  have hmap : ∀ (F : ObjId × LObj → ObjId × Obj), (∀ p ∈ mergeBlocksX x os blocks, F p = (p.1, unplain p.2)) →
+      (mergeBlocksX x os blocks).map F = (mergeBlocksX x os blocks).map fun p => (p.1, unplain p.2) :=
     fun F hF => List.map_congr_left hF
   rw [hmap _ (by
     intro p hp
@@ -61,6 +62,11 @@ theorem loadDocWith_of_parts_blocks (file version : Bytes) (xs : Nat)
     simp only [ho]
     cases o <;> simp [unplain])]
   rfl
+
+theorem prevLoop_none (file : Bytes) (x0 : XTable) (tr0 : Dict) (h4 : tr0.get PREV = none) :
+    prevLoop file (file.length + 2) (tr0.get PREV) [] x0 (tr0.remove PREV) = .ok (x0, tr0) := by
+  rw [h4, remove_absent tr0 PREV h4]
+  simp [prevLoop]
 
 /-! ### the loading pass -/
 
@@ -324,12 +330,14 @@ theorem lookupMember_mem (l : List (Nat × Obj)) (k : Nat) (o : Obj) (h : lookup
     · simp only [hn, if_true] at h; injection h with h; subst h; subst hn; simp
     · simp only [hn, if_false] at h; exact List.mem_cons_of_mem _ (ih h)
 
-theorem loadDoc_of_defined_objstm (file ver : Bytes) (xs : Nat) (x0 : XTable) (size0 : Nat) (tr0 : Dict)
+theorem loadDoc_of_defined_gen (file ver : Bytes) (xs : Nat) (xn : XTable) (size0 : Nat) (trn : Dict)
+    (x0 : XTable) (tr0 : Dict)
     (val : Nat → Nat × Obj) (cont : Nat → List (Nat × Obj))
     (g0 : findFrom PDF_KW (file.length + 1) file 0 = some 0) (g1 : pHeader file = some ver)
     (g2 : getXrefStart file = some xs) (g2' : xs ≤ file.length)
-    (g3 : xrefAndTrailer (file.drop xs) = .ok (x0, size0, tr0))
-    (hprev : tr0.get PREV = none) (henc : tr0.get ENCRYPT = none) (hmax : x0.maxId + 1 < 4294967296)
+    (g3 : xrefAndTrailer (file.drop xs) = .ok (xn, size0, trn))
+    (g4 : prevLoop file (file.length + 2) (trn.get PREV) [] xn (trn.remove PREV) = .ok (x0, tr0))
+    (henc : tr0.get ENCRYPT = none) (hmax : x0.maxId + 1 < 4294967296)
     (hent : ∀ k e, x0.get k = some e → EntryOk file val cont (k, e))
     (hcont : ∀ k, (∀ off g, x0.get k ≠ some (.normal off g)) → cont k = [])
     (hlisted : ∀ k, ∀ p ∈ cont k, ∃ i, x0.get p.1 = some (.compressed k i)) :
@@ -340,8 +348,8 @@ theorem loadDoc_of_defined_objstm (file ver : Bytes) (xs : Nat) (x0 : XTable) (s
   simp only [List.nil_append] at hfold
   have g9 : AllPlain (loadedOfN val [] x0.sorted) := allPlain_loadedOfN val _ [] (by intro p hp; simp at hp)
   have g6 : tr0.has ENCRYPT = false := by simp [Dict.has, henc]
-  obtain ⟨mark, hload⟩ := loadDocWith_of_parts_blocks file ver _ x0 _ tr0 _ _
-    g0 g1 g2 g2' g3 hprev (by simpa [U32] using hmax) g6 hfold g9
+  obtain ⟨mark, hload⟩ := loadDoc_skeleton file ver _ xn _ trn x0 tr0 _ _
+    g0 g1 g2 g2' g3 g4 (by simpa [U32] using hmax) g6 hfold g9
   refine ⟨_, hload, rfl, rfl, rfl, rfl, ?_⟩
   intro id
   show Objects.get (asObjects _) id = _
@@ -443,6 +451,21 @@ theorem loadDoc_of_defined_objstm (file ver : Bytes) (xs : Nat) (x0 : XTable) (s
     unfold mergeBlocksX
     rw [mergeBlocks_get, hnomem, hos, hx]
     rfl
+
+/-- one revision: no `Prev` in the trailer -/
+theorem loadDoc_of_defined_objstm (file ver : Bytes) (xs : Nat) (x0 : XTable) (size0 : Nat) (tr0 : Dict)
+    (val : Nat → Nat × Obj) (cont : Nat → List (Nat × Obj))
+    (g0 : findFrom PDF_KW (file.length + 1) file 0 = some 0) (g1 : pHeader file = some ver)
+    (g2 : getXrefStart file = some xs) (g2' : xs ≤ file.length)
+    (g3 : xrefAndTrailer (file.drop xs) = .ok (x0, size0, tr0))
+    (hprev : tr0.get PREV = none) (henc : tr0.get ENCRYPT = none) (hmax : x0.maxId + 1 < 4294967296)
+    (hent : ∀ k e, x0.get k = some e → EntryOk file val cont (k, e))
+    (hcont : ∀ k, (∀ off g, x0.get k ≠ some (.normal off g)) → cont k = [])
+    (hlisted : ∀ k, ∀ p ∈ cont k, ∃ i, x0.get p.1 = some (.compressed k i)) :
+    ∃ L, loadDoc file = .ok L ∧ L.version = ver ∧ L.trailer = tr0 ∧ L.xrefStart = xs ∧ L.maxId = x0.maxId ∧
+      ∀ id : ObjId, L.objects.get id = definedObject x0 val cont id :=
+  loadDoc_of_defined_gen file ver xs x0 size0 tr0 x0 tr0 val cont g0 g1 g2 g2' g3
+    (prevLoop_none file x0 tr0 hprev) henc hmax hent hcont hlisted
 
 /-! ### from the file grammar -/
 
